@@ -211,6 +211,24 @@ func intrinsicallyNonNil(v ssa.Value) bool {
 
 // mayReturnNilWithErr: callee returns (T, error) and has a return with a nil
 // first result and a possibly non-nil error.
+// mayReturnNilWithoutErr: the repository function has a path returning (nil, nil).
+func (c *nilCtx) mayReturnNilWithoutErr(fn *ssa.Function) bool {
+	if fn == nil || fn.Blocks == nil || fn.Pkg == nil || !isRepoPath(fn.Pkg.Pkg.Path()) {
+		return false
+	}
+	res := fn.Signature.Results()
+	if res.Len() != 2 || !isErrorType(res.At(1).Type()) || !isPtrOrIface(res.At(0).Type()) {
+		return false
+	}
+	for _, ret := range Returns(fn) {
+		v := retValue(ret, 0)
+		if k, ok := v.(*ssa.Const); ok && k.IsNil() && c.e.ClassifyReturn(ret) == retNilErr {
+			return true
+		}
+	}
+	return false
+}
+
 func (c *nilCtx) mayReturnNilWithErr(fn *ssa.Function) bool {
 	if v, ok := c.mayNilErrMemo[fn]; ok {
 		return v == 2
@@ -335,18 +353,25 @@ func (c *nilCtx) classifyD(fn *ssa.Function, v ssa.Value, d int) *nilSource {
 				}}
 			}
 			if isErrorType(last) {
-				may := false
+				may, mayNoErr := false, false
 				for _, g := range c.e.Callees(t) {
 					if c.mayReturnNilWithErr(g) {
 						may = true
 					}
-				}
-				if !may {
-					return nil
+					if c.mayReturnNilWithoutErr(g) {
+						mayNoErr = true
+					}
 				}
 				name := "call"
 				if o := callObj(t.Common()); o != nil {
 					name = o.Name()
+				}
+				if mayNoErr {
+					// the callee has a `return nil, nil` path: a nil error says nothing about the value
+					return &nilSource{Kind: "S2", At: t, Desc: "first result of " + name + "(), which may be nil together with a nil error", Assume: nilTest}
+				}
+				if !may {
+					return nil
 				}
 				return &nilSource{Kind: "S2", At: t, Desc: "first result of " + name + "() on its error path", Assume: func(cond ssa.Value) (bool, bool) {
 					if b, ok := cond.(*ssa.BinOp); ok && (b.Op == token.EQL || b.Op == token.NEQ) {
